@@ -223,12 +223,12 @@ Section CompCorrect.
     | None => None
     end.
 
-  Lemma run_stmt_unfold s : run_stmt dbg s = obs_of (run_code dbg (comp_stmt s) init).
+  Lemma run_stmt_unfold s : run_stmt0 dbg s = obs_of (run_code dbg (comp_stmt s) init).
   Proof. reflexivity. Qed.
 
-  Lemma stmt_refines : forall s, run_stmt dbg s = spec_stmt dbg s.
+  Lemma stmt_refines0 : forall s, run_stmt0 dbg s = spec_stmt0 dbg s.
   Proof.
-    intro s. rewrite run_stmt_unfold. destruct s; cbn [comp_stmt spec_stmt].
+    intro s. rewrite run_stmt_unfold. destruct s; cbn [comp_stmt spec_stmt0].
     - (* print *)
       rewrite run_code_app, comp_ok. destruct (eval dbg e) as [[v w]|]; cbn; rewrite <- ?app_assoc, ?app_nil_r; reflexivity.
     - (* assign *)
@@ -286,14 +286,15 @@ Section CompCorrect.
         * destruct (label_of true va) as [lb|]; cbn; [|now cbn].
           destruct (start_sub lb) as [ws n]; cbn. rewrite <- ?app_assoc, ?app_nil_r. reflexivity.
         * (* wait *)
-          destruct (float_ok (akind va)); [|cbn; rewrite <- ?app_assoc, ?app_nil_r; reflexivity].
-          destruct va as [r|k]; [|now cbn].
-          destruct r; cbn; rewrite <- ?app_assoc, ?app_nil_r; reflexivity.
+          destruct (wait_flow va) as [[ws f]|]; cbn; rewrite <- ?app_assoc, ?app_nil_r; reflexivity.
         * cbn. rewrite <- ?app_assoc, ?app_nil_r. reflexivity.
       + cbn [app bind run_code step]. unfold step_cmd, spec_cmd.
         cbn [length Nat.leb hd_error skipn init stk warn lines fl].
         destruct c; cbn; rewrite <- ?app_assoc, ?app_nil_r; reflexivity.
   Qed.
+
+  Lemma stmt_refines : forall s, run_stmt dbg s = spec_stmt dbg s.
+  Proof. intro s. unfold run_stmt, spec_stmt. destruct (ptr_twice s); [reflexivity | apply stmt_refines0]. Qed.
 
   Lemma from_refines : forall p alive known, run_from dbg alive known p = spec_from dbg alive known p.
   Proof.
@@ -371,9 +372,7 @@ Proof.
         destruct (start_sub lb) as [ws n]; cbn. intro H; inversion H; reflexivity.
       * destruct (label_of true va) as [lb|]; cbn; [|now cbn].
         destruct (start_sub lb) as [ws n]; cbn. intro H; inversion H; reflexivity.
-      * destruct (float_ok (akind va)); [|cbn; intro H; inversion H; reflexivity].
-        destruct va as [r|k]; [|now cbn].
-        destruct r; cbn; intro H; inversion H; reflexivity.
+      * destruct (wait_flow va) as [[ws f]|]; cbn; intro H; inversion H; reflexivity.
       * cbn. intro H; inversion H; reflexivity.
     + cbn [app bind run_code step]. unfold step_cmd.
       cbn [length Nat.leb hd_error skipn stk warn lines fl].
@@ -382,9 +381,9 @@ Qed.
 
 (* hence [run_stmt] loses nothing by asking for the empty stack *)
 Theorem run_stmt_is_exec :
-  forall dbg s, run_stmt dbg s = option_map (fun m => mkObs (warn m) (lines m) (fl m)) (exec_stmt dbg s).
+  forall dbg s, run_stmt0 dbg s = option_map (fun m => mkObs (warn m) (lines m) (fl m)) (exec_stmt dbg s).
 Proof.
-  intros dbg s. unfold run_stmt. destruct (exec_stmt dbg s) as [m|] eqn:E; [|now cbn].
+  intros dbg s. unfold run_stmt0. destruct (exec_stmt dbg s) as [m|] eqn:E; [|now cbn].
   rewrite (stack_empty_after_statement _ _ _ E). reflexivity.
 Qed.
 
@@ -398,10 +397,10 @@ Definition ends_thread (s : stmt) : bool :=
   end.
 
 (* only `end` and a `delete` that reaches the running thread end it *)
-Lemma flow_end_only_by_command dbg s o :
-  spec_stmt dbg s = Some o -> o_flow o = FEnd -> ends_thread s = true.
+Lemma flow_end_only_by_command0 dbg s o :
+  spec_stmt0 dbg s = Some o -> o_flow o = FEnd -> ends_thread s = true.
 Proof.
-  destruct s; cbn [spec_stmt ends_thread].
+  destruct s; cbn [spec_stmt0 ends_thread].
   - destruct (eval dbg e) as [[v w]|]; cbn; intros H; inversion H; subst; cbn; discriminate.
   - destruct (eval dbg e) as [[v w]|]; cbn; intros H; inversion H; subst; cbn; discriminate.
   - destruct (eval dbg e) as [[v w]|]; cbn; intros H; inversion H; subst; cbn; discriminate.
@@ -429,10 +428,16 @@ Proof.
       destruct (start_sub lb) as [ws n]; cbn. intros H; inversion H; subst; cbn; discriminate.
     + destruct (label_of true a) as [lb|]; cbn; [|now cbn].
       destruct (start_sub lb) as [ws n]; cbn. intros H; inversion H; subst; cbn; discriminate.
-    + destruct (float_ok (akind a)).
+    + unfold wait_flow. destruct (float_ok (akind a)).
       * destruct a as [r|k]; [|now cbn].
         destruct r; cbn; intros H; inversion H; subst; cbn; discriminate.
       * cbn; intros H; inversion H; subst; cbn; discriminate.
+Qed.
+
+Lemma flow_end_only_by_command dbg s o :
+  spec_stmt dbg s = Some o -> o_flow o = FEnd -> ends_thread s = true.
+Proof.
+  unfold spec_stmt. destruct (ptr_twice s); [discriminate | apply flow_end_only_by_command0].
 Qed.
 
 Definition obs_stmt (dbg : bool) (s : stmt) : tobs :=
